@@ -1,3 +1,4 @@
 import DC.Model.Value
 import DC.Model.Disk
 import DC.Model.Cache
+import DC.Driver
